@@ -230,6 +230,10 @@ func runC19(c *core.Ctx) {
 			frames = r.Range(33000, 36000)
 		}
 		asWindow := ci%2 == 1 // the shared buffer is itself a Slice view of a larger buffer
+		asGrown := ci%4 == 2  // the shared buffer reached its size through a growing Append
+		if asGrown && !large {
+			ch = []int{3, 5, 7}[r.Intn(3)]
+		}
 		procs := []int{1, 4, 16}[(ci/2)%3]
 		R := r.Range(2, 16)
 		W := r.Range(1, 8)
@@ -265,6 +269,12 @@ func runC19(c *core.Ctx) {
 			}
 		}
 		mk := func() dyn.Buf {
+			if asGrown {
+				b := t.Alloc(signal.Allocator{Channels: ch, Length: 1, Capacity: 1})
+				b.Append(t.Alloc(signal.Allocator{Channels: ch, Length: frames - 1, Capacity: frames - 1}))
+				c19Fill(b, t) // through the hook: no accessor of the grown buffer has been called yet
+				return b
+			}
 			if asWindow {
 				p := t.Alloc(signal.Allocator{Channels: ch, Length: frames + 3, Capacity: frames + 8})
 				c19Fill(p, t)
@@ -281,6 +291,9 @@ func runC19(c *core.Ctx) {
 		}
 		if asWindow {
 			c.Obs("configurations_sharing_a_slice_view", 1)
+		}
+		if asGrown {
+			c.Obs("configurations_sharing_a_buffer_grown_by_append", 1)
 		}
 		// ---------------- phase A: readers only
 		{
